@@ -11,6 +11,9 @@ impl Prop for TrainProp {
         self.which
     }
     fn rule(&self, tier: Tier) -> String {
+        if self.which == "C03" {
+            return super::speedlimit_lab::rule(self.which, tier);
+        }
         let mut s = super::setspeed_lab::rule(self.which, tier);
         if self.which != "C14" {
             s.push_str(" PLUS speed-limited runs: ");
@@ -33,7 +36,9 @@ impl Prop for TrainProp {
         }
     }
     fn explore(&self, ctx: &mut Ctx) {
-        super::setspeed_lab::explore(ctx, self.which);
+        if self.which != "C03" {
+            super::setspeed_lab::explore(ctx, self.which);
+        }
         if self.which != "C14" {
             super::speedlimit_lab::explore(ctx, self.which);
         }
